@@ -165,8 +165,15 @@ def run_tlc(module, cfg, workers=8, env=None, extra=(), timeout=3600, xmx='8g', 
         rc, out = sh(cmd, timeout=timeout, env=env, cwd=SPECS)
     except subprocess.TimeoutExpired as e:
         r.error = 'timeout'
-        r.out = (e.stdout or '') if isinstance(e.stdout, str) else ''
+        r.out = e.stdout if isinstance(e.stdout, str) else (e.stdout.decode('utf-8', 'replace') if e.stdout else '')
         r.wall = time.time() - t0
+        # what had been explored when the time limit struck (progress lines print numbers with thousands separators)
+        m = re.findall(r'([\d,]+) states generated(?: \([^)]*\))?, ([\d,]+) distinct states found', r.out)
+        if m:
+            r.generated, r.distinct = int(m[-1][0].replace(',', '')), int(m[-1][1].replace(',', ''))
+        m = re.search(r'Invariant (\S+) is violated', r.out)
+        if m:
+            r.violated = m.group(1)
         return r
     r.wall = time.time() - t0
     r.rc = rc
